@@ -17,6 +17,9 @@ pub mod c11;
 pub mod c12;
 pub mod c13;
 pub mod c14;
+pub mod c15;
+pub mod c16;
+pub mod c17;
 pub mod c06;
 pub mod codes;
 pub mod c07;
@@ -37,6 +40,9 @@ pub fn run(prop: &str, ctx: &Ctx) -> Option<Report> {
         "C12" => c12::run(ctx),
         "C13" => c13::run(ctx),
         "C14" => c14::run(ctx),
+        "C15" => c15::run(ctx),
+        "C16" => c16::run(ctx),
+        "C17" => c17::run(ctx),
         "C06" => c06::run(ctx),
         "C07" => c07::run(ctx),
         "C08" => c08::run(ctx),
@@ -58,6 +64,9 @@ pub fn replay(prop: &str, case: &str, rep: &mut Report) -> bool {
         "C12" => c12::replay(case, rep),
         "C13" => c13::replay(case, rep),
         "C14" => c14::replay(case, rep),
+        "C15" => c15::replay(case, rep),
+        "C16" => c16::replay(case, rep),
+        "C17" => c17::replay(case, rep),
         "C06" => c06::replay(case, rep),
         "C07" => c07::replay(case, rep),
         "C08" => c08::replay(case, rep),
